@@ -40,6 +40,8 @@ pub struct Profile {
     pub big_pct: u32,
     /// percent of plans that contain the bind disconnect / reconnect skeleton
     pub skeleton_pct: u32,
+    /// percent of plans that contain the map_ref disconnect / reconnect skeleton
+    pub mapref_skeleton_pct: u32,
 }
 
 impl Profile {
@@ -75,6 +77,7 @@ impl Profile {
             drop_state_pct: 0,
             big_pct: 0,
             skeleton_pct: 15,
+            mapref_skeleton_pct: 4,
         }
     }
 }
@@ -386,6 +389,41 @@ impl<'a> G<'a> {
     }
 }
 
+/// A projection (`map_ref`) of a pair variable with a consumer: the consumer is disconnected
+/// while the variable stays observed, the variable is written, the consumer is re-observed and
+/// the variable written again before the next stabilise.
+fn skeleton_mapref(g: &mut G, actions: &mut Vec<Action>) {
+    const LAST: usize = usize::MAX;
+    let pair_write = |g: &mut G| if g.r.chance(1, 2) { WriteOp::Set(g.val()) } else { WriteOp::SetB(g.val()) };
+    actions.push(Action::NewVarP { a: g.val(), b: g.val() });
+    g.np += 1;
+    g.nvars += 1;
+    actions.push(Action::Observe { node: LAST, pool: Pool::P });
+    actions.push(Action::NewMapRef { src: LAST, proj: g.r.below(2) as u8 });
+    let f = g.f1();
+    actions.push(Action::NewMap { src: LAST, f, fx: vec![], via: 0 });
+    g.ni += 2;
+    actions.push(Action::Observe { node: LAST, pool: Pool::I });
+    g.nobs += 2;
+    actions.push(Action::Stabilise);
+    actions.push(Action::DropObs { obs: LAST, clone: 0 });
+    actions.push(Action::Stabilise);
+    for _ in 0..1 + g.r.below(2) {
+        let op = pair_write(g);
+        actions.push(Action::Write { var: LAST, op });
+    }
+    if g.r.chance(3, 4) {
+        actions.push(Action::Stabilise);
+    }
+    actions.push(Action::Observe { node: LAST, pool: Pool::I });
+    g.nobs += 1;
+    for _ in 0..g.r.below(3) {
+        let op = pair_write(g);
+        actions.push(Action::Write { var: LAST, op });
+    }
+    actions.push(Action::Stabilise);
+}
+
 /// A bind whose closure hands out a node; the node is observed on its own, the bind is
 /// disconnected (its own observer dropped), things change, and the bind is reconnected.
 fn skeleton_reconnect(g: &mut G, actions: &mut Vec<Action>) {
@@ -487,7 +525,16 @@ pub fn gen_plan(seed: u64, p: &Profile) -> Plan {
     }
     let skeleton_at = if !fault_free && g.r.chance(p.skeleton_pct, 100) { Some(actions.len() + g.r.below(n_actions.max(actions.len() + 1) - actions.len())) } else { None };
     let mut skeleton_done = false;
+    let mapref_at = if g.r.chance(p.mapref_skeleton_pct, 100) { Some(actions.len() + g.r.below(n_actions.max(actions.len() + 1) - actions.len())) } else { None };
+    let mut mapref_done = false;
     while actions.len() < n_actions {
+        if let Some(at) = mapref_at {
+            if !mapref_done && actions.len() >= at {
+                mapref_done = true;
+                skeleton_mapref(&mut g, &mut actions);
+                continue;
+            }
+        }
         if let Some(at) = skeleton_at {
             if !skeleton_done && actions.len() >= at {
                 skeleton_done = true;
